@@ -284,6 +284,17 @@ func genC18(tier string, seed uint64, emit func(string)) {
 					continue
 				}
 			}
+			// a nil element inside the component list (reachable through the non-validating decoders), flag values other than 1
+			switch r.intn(12) {
+			case 0:
+				c[tSwc] = "[nil;" + validSwcTok(r) + ";" + validSwcTok(r) + "]"
+			case 1:
+				c[tSwc] = "[" + validSwcTok(r) + ";nil]"
+			case 2:
+				if kind == 1 {
+					c[tNosw] = []string{"0", "2", "7"}[r.intn(3)]
+				}
+			}
 			// empty component lists exercise the marshallers' normalisation
 			if kind == 1 && r.intn(6) == 0 {
 				c[tSwc] = "[]"
